@@ -1,1 +1,502 @@
-(* placeholder: being written *)
+(* TreeIds.v — object identities across the merge (upd_ids) and the
+   well-formedness facts the merge preserves for ANY data (upd_wf). *)
+From Coq Require Import List ZArith NArith Bool Lia Arith.
+From SC Require Import Model.Val Model.Plain Model.Valid Model.Class Model.Tree Proofs.TreeDefs.
+From SC Require Export Proofs.TreeLemmas.
+Import ListNotations.
+
+(* ------------------------------------------------------------------ *)
+(* lists of identities                                                 *)
+(* ------------------------------------------------------------------ *)
+
+Definition lids (l : list node) : list nat := flat_map node_ids l.
+Definition eids (d : list (key * node)) : list nat :=
+  flat_map (fun kn : key * node => node_ids (snd kn)) d.
+
+Lemma NoDup_app_inv {A} (l1 l2 : list A) :
+  NoDup (l1 ++ l2) -> NoDup l1 /\ NoDup l2 /\ (forall x, In x l1 -> ~ In x l2).
+Proof.
+  induction l1 as [|a l1 IH]; simpl; intros H.
+  - split; [constructor|]. split; [exact H|]. intros x [].
+  - inversion H as [|? ? Hn Hd]; subst. destruct (IH Hd) as [H1 [H2 H3]].
+    split; [|split].
+    + constructor; [|exact H1]. intros Hin. apply Hn. apply in_or_app. left; exact Hin.
+    + exact H2.
+    + intros x [<-|Hx].
+      * intros Hin. apply Hn. apply in_or_app. right; exact Hin.
+      * apply H3; exact Hx.
+Qed.
+
+(* [old] are the ids before, all below the supply [nx]; [new] the ids after *)
+Definition ids_pre (old : list nat) (nx : nat) : Prop :=
+  NoDup old /\ (forall i, In i old -> i < nx).
+Definition ids_step (old : list nat) (nx : nat) (new : list nat) (nx' : nat) : Prop :=
+  nx <= nx' /\ NoDup new /\ (forall i, In i new -> In i old \/ nx <= i < nx').
+
+Lemma ids_step_refl old nx : ids_pre old nx -> ids_step old nx old nx.
+Proof. intros [H1 H2]. split; [lia|]. split; [exact H1|]. intros i Hi. left; exact Hi. Qed.
+
+Lemma ids_step_fresh old nx new nx' :
+  nx <= nx' -> NoDup new -> (forall i, In i new -> nx <= i < nx') -> ids_step old nx new nx'.
+Proof. intros H1 H2 H3. split; [exact H1|]. split; [exact H2|]. intros i Hi. right; auto. Qed.
+
+Lemma ids_step_trans A nx B nx1 C nx2 :
+  ids_step A nx B nx1 -> ids_step B nx1 C nx2 -> ids_step A nx C nx2.
+Proof.
+  intros [A1 [A2 A3]] [B1 [B2 B3]]. split; [lia|]. split; [exact B2|].
+  intros i Hi. destruct (B3 i Hi) as [Hb|Hb].
+  - destruct (A3 i Hb) as [Ha|Ha]; [left; exact Ha|right; lia].
+  - right; lia.
+Qed.
+
+Lemma ids_step_pre old nx new nx' : ids_pre old nx -> ids_step old nx new nx' -> ids_pre new nx'.
+Proof.
+  intros [P1 P2] [A1 [A2 A3]]. split; [exact A2|].
+  intros i Hi. destruct (A3 i Hi) as [H|H]; [apply P2 in H; lia|lia].
+Qed.
+
+Lemma ids_pre_mono old nx nx' : ids_pre old nx -> nx <= nx' -> ids_pre old nx'.
+Proof. intros [P1 P2] H. split; [exact P1|]. intros i Hi. apply P2 in Hi. lia. Qed.
+
+Lemma ids_pre_app a b nx : ids_pre (a ++ b) nx -> ids_pre a nx /\ ids_pre b nx.
+Proof.
+  intros [P1 P2]. apply NoDup_app_inv in P1. destruct P1 as [N1 [N2 _]].
+  split; (split; [assumption|]); intros i Hi; apply P2; apply in_or_app; auto.
+Qed.
+
+Lemma ids_step_old_incl a old nx a' nx' :
+  ids_step a nx a' nx' -> incl a old -> ids_step old nx a' nx'.
+Proof.
+  intros [A1 [A2 A3]] Hi. split; [exact A1|]. split; [exact A2|].
+  intros i H. destruct (A3 i H) as [H1|H1]; [left; apply Hi; exact H1|right; exact H1].
+Qed.
+
+Lemma ids_step_app a b nx a' nx1 b' nx2 :
+  ids_pre (a ++ b) nx -> ids_step a nx a' nx1 -> ids_step b nx1 b' nx2 ->
+  ids_step (a ++ b) nx (a' ++ b') nx2.
+Proof.
+  intros [P1 P2] [A1 [A2 A3]] [B1 [B2 B3]].
+  apply NoDup_app_inv in P1. destruct P1 as [N1 [N2 N3]].
+  split; [lia|]. split.
+  - apply NoDup_app'; auto. intros i Hi Hi2.
+    destruct (A3 i Hi) as [Ha|Ha]; destruct (B3 i Hi2) as [Hb|Hb].
+    + exact (N3 i Ha Hb).
+    + assert (i < nx) by (apply P2; apply in_or_app; left; exact Ha). lia.
+    + assert (i < nx) by (apply P2; apply in_or_app; right; exact Hb). lia.
+    + lia.
+  - intros i Hi. apply in_app_or in Hi. destruct Hi as [Hi|Hi].
+    + destruct (A3 i Hi) as [Ha|Ha]; [left; apply in_or_app; left; exact Ha|right; lia].
+    + destruct (B3 i Hi) as [Hb|Hb]; [left; apply in_or_app; right; exact Hb|right; lia].
+Qed.
+
+(* replace the middle segment *)
+Lemma ids_step_mid pre a post nx a' nx' :
+  ids_pre (pre ++ a ++ post) nx -> ids_step a nx a' nx' ->
+  ids_step (pre ++ a ++ post) nx (pre ++ a' ++ post) nx'.
+Proof.
+  intros P S. pose proof S as [S1 _].
+  destruct (ids_pre_app _ _ _ P) as [Ppre Prest].
+  apply (ids_step_app pre (a ++ post) nx pre nx (a' ++ post) nx'); [exact P| |].
+  - apply ids_step_refl; exact Ppre.
+  - apply (ids_step_app a post nx a' nx' post nx'); [exact Prest|exact S|].
+    apply ids_step_refl. destruct (ids_pre_app _ _ _ Prest) as [_ Pp].
+    eapply ids_pre_mono; [exact Pp|lia].
+Qed.
+
+Lemma ids_step_cons id old nx new nx' :
+  ids_pre (id :: old) nx -> ids_step old nx new nx' -> ids_step (id :: old) nx (id :: new) nx'.
+Proof.
+  intros P S.
+  pose proof (ids_step_mid [id] old [] nx new nx') as H. rewrite !app_nil_r in H.
+  simpl in H. apply H; assumption.
+Qed.
+
+Lemma ids_step_filter {A} (f : A -> list nat) p l nx :
+  ids_pre (flat_map f l) nx -> ids_step (flat_map f l) nx (flat_map f (filter p l)) nx.
+Proof.
+  intros [P1 P2]. split; [lia|]. split.
+  - clear P2. induction l as [|x l IH]; simpl in *; [constructor|].
+    apply NoDup_app_inv in P1. destruct P1 as [N1 [N2 N3]].
+    destruct (p x); simpl; [|auto].
+    apply NoDup_app'; auto. intros i Hi Hi2. apply (N3 i Hi).
+    apply in_flat_map in Hi2. destruct Hi2 as [y [Hy Hi2]]. apply filter_In in Hy.
+    apply in_flat_map. exists y. tauto.
+  - intros i Hi. left. apply in_flat_map in Hi. destruct Hi as [y [Hy Hi]].
+    apply filter_In in Hy. apply in_flat_map. exists y. tauto.
+Qed.
+
+(* ------------------------------------------------------------------ *)
+(* dict_set as an in-place replacement                                 *)
+(* ------------------------------------------------------------------ *)
+
+Lemma dict_set_split {A} k (d : list (key * A)) ex :
+  alookup k d = Some ex ->
+  exists l1 l2, d = l1 ++ (k, ex) :: l2 /\ forall n, dict_set d k n = l1 ++ (k, n) :: l2.
+Proof.
+  induction d as [|[k' v] d IH]; simpl; intros H.
+  - discriminate.
+  - destruct (key_eqb k k') eqn:E.
+    + apply key_eqb_eq in E. subst k'. inversion H; subst v.
+      exists [], d. split; [reflexivity|]. intros n. reflexivity.
+    + destruct (IH H) as [l1 [l2 [E1 E2]]]. exists ((k', v) :: l1), l2. split.
+      * simpl. rewrite E1. reflexivity.
+      * intros n. rewrite E2. reflexivity.
+Qed.
+
+Lemma dict_set_new {A} k (d : list (key * A)) n :
+  alookup k d = None -> dict_set d k n = d ++ [(k, n)].
+Proof.
+  induction d as [|[k' v] d IH]; simpl; intros H.
+  - reflexivity.
+  - destruct (key_eqb k k'); [discriminate|]. rewrite IH; auto.
+Qed.
+
+Lemma eids_app d1 d2 : eids (d1 ++ d2) = eids d1 ++ eids d2.
+Proof. unfold eids. apply flat_map_app. Qed.
+
+Lemma lids_app d1 d2 : lids (d1 ++ d2) = lids d1 ++ lids d2.
+Proof. unfold lids. apply flat_map_app. Qed.
+
+Lemma eids_cons k n d : eids ((k, n) :: d) = node_ids n ++ eids d.
+Proof. reflexivity. Qed.
+
+(* replacing / adding the entry of key k *)
+Lemma ids_step_dict_set d k n nx nx1 :
+  ids_pre (eids d) nx ->
+  (forall ex, alookup k d = Some ex -> ids_step (node_ids ex) nx (node_ids n) nx1) ->
+  (alookup k d = None -> ids_step [] nx (node_ids n) nx1) ->
+  ids_step (eids d) nx (eids (dict_set d k n)) nx1.
+Proof.
+  intros P HS HN. destruct (alookup k d) as [ex|] eqn:E.
+  - destruct (dict_set_split _ _ _ E) as [l1 [l2 [E1 E2]]].
+    rewrite E2. rewrite E1 in P |- *. rewrite !eids_app, !eids_cons in *.
+    apply ids_step_mid; [exact P|]. apply HS; reflexivity.
+  - rewrite (dict_set_new _ _ _ E). rewrite eids_app, eids_cons. simpl eids.
+    pose proof (ids_step_mid (eids d) [] [] nx (node_ids n ++ []) nx1) as H.
+    simpl in H. rewrite !app_nil_r in H. rewrite app_nil_r. apply H; [exact P|].
+    apply HN; reflexivity.
+Qed.
+
+(* ------------------------------------------------------------------ *)
+(* upd_ids                                                             *)
+(* ------------------------------------------------------------------ *)
+
+Section UpdIds.
+  Variable T : class_table.
+
+  Definition upd_ids_at (f : node -> nat -> node * nat * option err) : Prop :=
+    forall ex nx ex' nx' e, ids_pre (node_ids ex) nx -> f ex nx = (ex', nx', e) ->
+      ids_step (node_ids ex) nx (node_ids ex') nx'.
+
+  Lemma from_base_ids_step old c nv nx n nx1 :
+    from_base T c nv nx = (n, nx1) -> ids_step old nx (node_ids n) nx1.
+  Proof.
+    intros E. pose proof (from_base_fresh T c nv nx) as [F1 [F2 F3]].
+    rewrite E in *. simpl in *. apply ids_step_fresh; auto.
+  Qed.
+
+  Lemma map_from_base_ids_step old c dl nx tl nx1 :
+    map_st (from_base T c) dl nx = (tl, nx1) -> ids_step old nx (lids tl) nx1.
+  Proof.
+    intros E. apply map_st_rel_intro in E.
+    destruct (map_st_rel_fresh _ node_ids _ _ _ _ E) as [G1 [G2 G3]].
+    { apply Forall_forall. intros a _ s. apply from_base_fresh. }
+    apply ids_step_fresh; auto.
+  Qed.
+
+  Lemma replace_ids c wrapped nv ex0 nx0 n nx1 e old nx :
+    ids_step old nx (node_ids ex0) nx0 ->
+    match validate (validators_of T c) wrapped with
+    | Some e => (ex0, nx0, Some e)
+    | None => let (n, nx1) := from_base T c nv nx0 in (n, nx1, None)
+    end = (n, nx1, e) -> ids_step old nx (node_ids n) nx1.
+  Proof.
+    intros S H. destruct (validate (validators_of T c) wrapped).
+    - inversion H; subst. exact S.
+    - destruct (from_base T c nv nx0) as [n0 nx2] eqn:E. inversion H; subst.
+      pose proof (from_base_fresh T c nv nx0) as [F1 [F2 F3]]. rewrite E in *. simpl in *.
+      destruct S as [S1 _]. apply ids_step_fresh; [lia|exact F3|].
+      intros i Hi. apply F2 in Hi. lia.
+  Qed.
+
+  Lemma merge_one_ids u c wrapped nv ex nx n nx1 e :
+    upd_ids_at (u nv) -> ids_pre (node_ids ex) nx ->
+    merge_one T u c wrapped nv ex nx = (n, nx1, e) -> ids_step (node_ids ex) nx (node_ids n) nx1.
+  Proof.
+    intros Hu P H. unfold merge_one in H. cbv beta zeta in H.
+    destruct (skip_same nv ex). { inversion H; subst. apply ids_step_refl; exact P. }
+    destruct (node_is_container ex && negb (is_null nv)).
+    - destruct (u nv ex nx) as [[ex' nx'] [e'|]] eqn:E.
+      + pose proof (Hu _ _ _ _ _ P E) as S. destruct (err_is_value_error e').
+        * eapply replace_ids; eauto.
+        * inversion H; subst; exact S.
+      + inversion H; subst. eapply Hu; eauto.
+    - eapply replace_ids; [|exact H]. apply ids_step_refl; exact P.
+  Qed.
+
+  Lemma upd_prefix_ids u c dl :
+    Forall (fun nv => upd_ids_at (u nv)) dl ->
+    forall l nx l' nx' e, ids_pre (lids l) nx -> upd_prefix T u c dl l nx = (l', nx', e) ->
+      ids_step (lids l) nx (lids l') nx'.
+  Proof.
+    intros HF. induction HF as [|nv dl Hnv HF IH]; intros l nx l' nx' e P H.
+    - rewrite upd_prefix_nil in H. inversion H; subst. apply ids_step_fresh; [lia|constructor|intros i []].
+    - destruct l as [|ex l].
+      + rewrite upd_prefix_cons_nil in H.
+        destruct (validate (validators_of T c) (VL (nv :: dl))).
+        * inversion H; subst. apply ids_step_refl; exact P.
+        * destruct (map_st (from_base T c) (nv :: dl) nx) as [tl nx1] eqn:E2.
+          inversion H; subst. eapply map_from_base_ids_step; eauto.
+      + rewrite upd_prefix_cons_cons in H.
+        change (lids (ex :: l)) with (node_ids ex ++ lids l) in *.
+        destruct (ids_pre_app _ _ _ P) as [Pex Pl].
+        destruct (merge_one T u c nv nv ex nx) as [[n nx1] [e1|]] eqn:E.
+        * inversion H; subst. change (lids (n :: l)) with (node_ids n ++ lids l).
+          pose proof (merge_one_ids _ _ _ _ _ _ _ _ _ Hnv Pex E) as S.
+          apply (ids_step_app _ _ nx _ nx' _ nx'); [exact P|exact S|].
+          apply ids_step_refl. eapply ids_pre_mono; [exact Pl|]. destruct S; assumption.
+        * destruct (upd_prefix T u c dl l nx1) as [[l2 nx2] e2] eqn:E2.
+          inversion H; subst. change (lids (n :: l2)) with (node_ids n ++ lids l2).
+          pose proof (merge_one_ids _ _ _ _ _ _ _ _ _ Hnv Pex E) as S.
+          apply (ids_step_app _ _ nx _ nx1 _ nx'); [exact P|exact S|].
+          eapply IH; [|exact E2]. eapply ids_pre_mono; [exact Pl|]. destruct S; assumption.
+  Qed.
+
+  Lemma upd_entries_ids u c dd :
+    Forall (fun kv : key * val => upd_ids_at (u (snd kv))) dd ->
+    forall d nx d' nx' e, ids_pre (eids d) nx -> upd_entries T u c dd d nx = (d', nx', e) ->
+      ids_step (eids d) nx (eids d') nx'.
+  Proof.
+    intros HF. induction HF as [|[k nv] dd Hnv HF IH]; intros d nx d' nx' e P H.
+    - rewrite upd_entries_nil in H. inversion H; subst. apply ids_step_refl; exact P.
+    - rewrite upd_entries_cons in H. simpl in Hnv.
+      destruct (alookup k d) as [ex|] eqn:Ek.
+      + destruct (merge_one T u c (VD [(k, nv)]) nv ex nx) as [[n nx1] e1] eqn:E.
+        assert (S : ids_step (eids d) nx (eids (dict_set d k n)) nx1).
+        { apply ids_step_dict_set; [exact P| |].
+          - intros ex0 H0. rewrite Ek in H0. inversion H0; subst ex0.
+            eapply merge_one_ids; [exact Hnv| |exact E].
+            destruct (dict_set_split _ _ _ Ek) as [l1 [l2 [E1 _]]]. rewrite E1 in P.
+            rewrite eids_app, eids_cons in P.
+            destruct (ids_pre_app _ _ _ P) as [_ P2]. destruct (ids_pre_app _ _ _ P2) as [P3 _].
+            exact P3.
+          - intros H0. congruence. }
+        destruct e1 as [e1|].
+        * inversion H; subst. exact S.
+        * eapply ids_step_trans; [exact S|]. eapply IH; [|exact H].
+          eapply ids_step_pre; eauto.
+      + destruct (validate (validators_of T c) (VD [(k, nv)])).
+        * inversion H; subst. apply ids_step_refl; exact P.
+        * destruct (from_base T c nv nx) as [n nx1] eqn:E.
+          assert (S : ids_step (eids d) nx (eids (dict_set d k n)) nx1).
+          { apply ids_step_dict_set; [exact P| |].
+            - intros ex0 H0. congruence.
+            - intros _. eapply from_base_ids_step; eauto. }
+          eapply ids_step_trans; [exact S|]. eapply IH; [|exact H].
+          eapply ids_step_pre; eauto.
+  Qed.
+
+  Lemma ids_pre_NL id c l nx : ids_pre (node_ids (NL id c l)) nx -> ids_pre (lids l) nx.
+  Proof. intros P. apply (ids_pre_app [id] (lids l)). exact P. Qed.
+  Lemma ids_pre_ND id c d nx : ids_pre (node_ids (ND id c d)) nx -> ids_pre (eids d) nx.
+  Proof. intros P. apply (ids_pre_app [id] (eids d)). exact P. Qed.
+
+  Lemma upd_ids_all data : upd_ids_at (upd T data).
+  Proof.
+    induction data as [s|dl IH|dd IH] using val_ind2; intros ex nx ex' nx' e P H.
+    - rewrite upd_mismatch in H.
+      + inversion H; subst. apply ids_step_refl; exact P.
+      + destruct ex; simpl; auto; left; discriminate.
+    - destruct ex as [v|id c l|id c d].
+      + rewrite upd_mismatch in H; [|right; reflexivity]. inversion H; subst. apply ids_step_refl; exact P.
+      + rewrite upd_NL_VL in H.
+        destruct (upd_prefix T (fun v => upd T v) c dl l nx) as [[l' nx2] e2] eqn:E.
+        inversion H; subst. apply (ids_step_cons id (lids l) nx (lids l') nx'); [exact P|].
+        eapply (upd_prefix_ids (fun v => upd T v)); [exact IH| |exact E].
+        eapply ids_pre_NL; exact P.
+      + rewrite upd_mismatch in H; [|left; discriminate]. inversion H; subst. apply ids_step_refl; exact P.
+    - destruct ex as [v|id c l|id c d].
+      + rewrite upd_mismatch in H; [|right; reflexivity]. inversion H; subst. apply ids_step_refl; exact P.
+      + rewrite upd_mismatch in H; [|left; discriminate]. inversion H; subst. apply ids_step_refl; exact P.
+      + rewrite upd_ND_VD in H.
+        destruct (upd_entries T (fun v => upd T v) c dd d nx) as [[d' nx2] e2] eqn:E.
+        pose proof (ids_pre_ND _ _ _ _ P) as Pd.
+        assert (S : ids_step (eids d) nx (eids d') nx2).
+        { eapply (upd_entries_ids (fun v => upd T v)); [exact IH|exact Pd|exact E]. }
+        destruct e2 as [e2|]; inversion H; subst.
+        * apply (ids_step_cons id (eids d) nx (eids d') nx'); assumption.
+        * apply (ids_step_cons id (eids d) nx (eids (keep_keys d' dd)) nx'); [exact P|].
+          eapply ids_step_trans; [exact S|]. unfold keep_keys, eids.
+          apply ids_step_filter. eapply ids_step_pre; eauto.
+  Qed.
+End UpdIds.
+
+(* the strong form: every id after the merge is an old id or a fresh one *)
+Theorem upd_ids_step T data n nx n' nx' e :
+  upd T data n nx = (n', nx', e) -> ids_pre (node_ids n) nx ->
+  ids_step (node_ids n) nx (node_ids n') nx'.
+Proof. intros H P. eapply upd_ids_all; eauto. Qed.
+
+Theorem upd_entries_ids_step T c dd d nx d' nx' e :
+  upd_entries T (fun v => upd T v) c dd d nx = (d', nx', e) -> ids_pre (eids d) nx ->
+  ids_step (eids d) nx (eids d') nx'.
+Proof.
+  intros H P. eapply (upd_entries_ids T (fun v => upd T v)); [|exact P|exact H].
+  apply Forall_forall. intros kv _. apply upd_ids_all.
+Qed.
+
+(* identities: the merge keeps old ids or allocates fresh ones; holds for ANY data, also when upd reports an error *)
+Theorem upd_ids T data n nx n' nx' e :
+  upd T data n nx = (n', nx', e) ->
+  (forall i, In i (node_ids n) -> i < nx) -> NoDup (node_ids n) ->
+  NoDup (node_ids n') /\ (forall i, In i (node_ids n') -> i < nx') /\ nx <= nx'.
+Proof.
+  intros H Hlt Hnd. assert (P : ids_pre (node_ids n) nx) by (split; assumption).
+  pose proof (upd_ids_step _ _ _ _ _ _ _ H P) as S.
+  destruct (ids_step_pre _ _ _ _ P S) as [Q1 Q2]. destruct S as [S1 _]. auto.
+Qed.
+
+(* ------------------------------------------------------------------ *)
+(* a generic preservation scheme for structural predicates             *)
+(* ------------------------------------------------------------------ *)
+
+Section UpdPres.
+  Variables (T : class_table) (b : nat).
+  Variable Q : node -> Prop.               (* the predicate preserved *)
+  Variable D : val -> Prop.                (* what is required of the incoming data *)
+  Variables CL CD : nat -> Prop.           (* conditions on the class of a list / dict node *)
+  Variable KU : list (key * node) -> Prop. (* condition on the entry list of a dict node *)
+  Hypothesis Q_NL : forall id c l, Q (NL id c l) <-> CL c /\ Forall Q l.
+  Hypothesis Q_ND : forall id c d,
+      Q (ND id c d) <-> CD c /\ KU d /\ Forall (fun kn : key * node => Q (snd kn)) d.
+  Hypothesis CL_b : forall c, CL c -> in_backend T b c = true.
+  Hypothesis CD_b : forall c, CD c -> in_backend T b c = true.
+  Hypothesis KU_set : forall d k n, KU d -> KU (dict_set d k n).
+  Hypothesis KU_keep : forall d (dd : list (key * val)), KU d -> KU (keep_keys d dd).
+  Hypothesis D_VL : forall l, D (VL l) -> Forall D l.
+  Hypothesis D_VD : forall d, D (VD d) -> Forall (fun kv : key * val => D (snd kv)) d.
+  Hypothesis Q_fb : forall c nv nx, in_backend T b c = true -> D nv -> Q (fst (from_base T c nv nx)).
+
+  Definition pres_at (f : node -> nat -> node * nat * option err) : Prop :=
+    forall ex nx ex' nx' e, Q ex -> f ex nx = (ex', nx', e) -> Q ex'.
+
+  Lemma replace_pres c wrapped nv ex0 nx0 n nx1 e :
+    in_backend T b c = true -> D nv -> Q ex0 ->
+    match validate (validators_of T c) wrapped with
+    | Some e => (ex0, nx0, Some e)
+    | None => let (n, nx1) := from_base T c nv nx0 in (n, nx1, None)
+    end = (n, nx1, e) -> Q n.
+  Proof.
+    intros Hc Hd Hq H. destruct (validate (validators_of T c) wrapped).
+    - inversion H; subst; exact Hq.
+    - pose proof (Q_fb c nv nx0 Hc Hd) as G.
+      destruct (from_base T c nv nx0) as [n0 nx2]. inversion H; subst. exact G.
+  Qed.
+
+  Lemma merge_one_pres u c wrapped nv ex nx n nx1 e :
+    in_backend T b c = true -> D nv -> pres_at (u nv) -> Q ex ->
+    merge_one T u c wrapped nv ex nx = (n, nx1, e) -> Q n.
+  Proof.
+    intros Hc Hd Hu Hq H. unfold merge_one in H. cbv beta zeta in H.
+    destruct (skip_same nv ex). { inversion H; subst; exact Hq. }
+    destruct (node_is_container ex && negb (is_null nv)).
+    - destruct (u nv ex nx) as [[ex' nx'] [e'|]] eqn:E.
+      + pose proof (Hu _ _ _ _ _ Hq E) as Hq'. destruct (err_is_value_error e').
+        * eapply replace_pres; eauto.
+        * inversion H; subst; exact Hq'.
+      + inversion H; subst. eapply Hu; eauto.
+    - eapply replace_pres; eauto.
+  Qed.
+
+  Lemma upd_prefix_pres u c dl :
+    Forall (fun nv => pres_at (u nv)) dl -> Forall D dl -> in_backend T b c = true ->
+    forall l nx l' nx' e, Forall Q l -> upd_prefix T u c dl l nx = (l', nx', e) -> Forall Q l'.
+  Proof.
+    intros HF. induction HF as [|nv dl Hnv HF IH]; intros HD Hc l nx l' nx' e Hl H.
+    - rewrite upd_prefix_nil in H. inversion H; subst. constructor.
+    - destruct l as [|ex l].
+      + rewrite upd_prefix_cons_nil in H.
+        destruct (validate (validators_of T c) (VL (nv :: dl))).
+        * inversion H; subst. constructor.
+        * destruct (map_st (from_base T c) (nv :: dl) nx) as [tl nx1] eqn:E2.
+          inversion H; subst. apply map_st_rel_intro in E2.
+          eapply map_st_rel_Forall; [exact E2|].
+          eapply Forall_impl; [|exact HD]. intros a Ha s. apply Q_fb; auto.
+      + rewrite upd_prefix_cons_cons in H. inversion Hl; subst. inversion HD; subst.
+        destruct (merge_one T u c nv nv ex nx) as [[n nx1] [e1|]] eqn:E.
+        * inversion H; subst. constructor; auto. eapply merge_one_pres; eauto.
+        * destruct (upd_prefix T u c dl l nx1) as [[l2 nx2] e2] eqn:E2.
+          inversion H; subst. constructor.
+          -- eapply merge_one_pres; eauto.
+          -- eapply IH; eauto.
+  Qed.
+
+  Definition Qe (kn : key * node) : Prop := Q (snd kn).
+
+  Lemma upd_entries_pres u c dd :
+    Forall (fun kv : key * val => pres_at (u (snd kv))) dd ->
+    Forall (fun kv : key * val => D (snd kv)) dd -> in_backend T b c = true ->
+    forall d nx d' nx' e, KU d -> Forall Qe d ->
+      upd_entries T u c dd d nx = (d', nx', e) -> KU d' /\ Forall Qe d'.
+  Proof.
+    intros HF. induction HF as [|[k nv] dd Hnv HF IH]; intros HD Hc d nx d' nx' e Hk Hd H.
+    - rewrite upd_entries_nil in H. inversion H; subst. auto.
+    - rewrite upd_entries_cons in H. simpl in Hnv. inversion HD as [|? ? HD1 HD2]; subst. simpl in HD1.
+      destruct (alookup k d) as [ex|] eqn:Ek.
+      + assert (Hex : Q ex).
+        { apply alookup_In in Ek. rewrite Forall_forall in Hd. apply (Hd (k, ex)). exact Ek. }
+        destruct (merge_one T u c (VD [(k, nv)]) nv ex nx) as [[n nx1] e1] eqn:E.
+        assert (Hn : Q n) by (eapply merge_one_pres; eauto).
+        assert (Hd1 : Forall Qe (dict_set d k n)) by (apply Forall_dict_set; auto).
+        destruct e1 as [e1|].
+        * inversion H; subst. auto.
+        * eapply IH; eauto.
+      + destruct (validate (validators_of T c) (VD [(k, nv)])).
+        * inversion H; subst. auto.
+        * pose proof (Q_fb c nv nx Hc HD1) as G.
+          destruct (from_base T c nv nx) as [n nx1]. simpl in G.
+          eapply IH; [exact HD2|exact Hc| | |exact H]; [apply KU_set; exact Hk|].
+          apply Forall_dict_set; auto.
+  Qed.
+
+  Lemma upd_pres_all data : D data -> pres_at (upd T data).
+  Proof.
+    induction data as [s|dl IH|dd IH] using val_ind2; intros HD ex nx ex' nx' e Hq H.
+    - rewrite upd_mismatch in H.
+      + inversion H; subst; exact Hq.
+      + destruct ex; simpl; auto; left; discriminate.
+    - destruct ex as [v|id c l|id c d].
+      + rewrite upd_mismatch in H; [|right; reflexivity]. inversion H; subst; exact Hq.
+      + rewrite upd_NL_VL in H.
+        destruct (upd_prefix T (fun v => upd T v) c dl l nx) as [[l' nx2] e2] eqn:E.
+        inversion H; subst. apply Q_NL in Hq. destruct Hq as [Hc Hl].
+        apply Q_NL. split; [exact Hc|]. apply D_VL in HD.
+        eapply (upd_prefix_pres (fun v => upd T v)); [|exact HD|apply CL_b; exact Hc|exact Hl|exact E].
+        rewrite Forall_forall in *. intros x Hx. apply IH; auto.
+      + rewrite upd_mismatch in H; [|left; discriminate]. inversion H; subst; exact Hq.
+    - destruct ex as [v|id c l|id c d].
+      + rewrite upd_mismatch in H; [|right; reflexivity]. inversion H; subst; exact Hq.
+      + rewrite upd_mismatch in H; [|left; discriminate]. inversion H; subst; exact Hq.
+      + rewrite upd_ND_VD in H.
+        destruct (upd_entries T (fun v => upd T v) c dd d nx) as [[d' nx2] e2] eqn:E.
+        apply Q_ND in Hq. destruct Hq as [Hc [Hk Hd]]. apply D_VD in HD.
+        assert (Hd' : KU d' /\ Forall Qe d').
+        { eapply (upd_entries_pres (fun v => upd T v)); [|exact HD|apply CD_b; exact Hc|exact Hk|exact Hd|exact E].
+          rewrite Forall_forall in *. intros x Hx. apply IH; auto. }
+        destruct Hd' as [Hk' Hd'].
+        destruct e2 as [e2|]; inversion H; subst; apply Q_ND; split; auto. split.
+        * apply KU_keep; exact Hk'.
+        * unfold keep_keys. apply Forall_filter'. exact Hd'.
+  Qed.
+
+  (* the same for the dict-level merge used by update() *)
+  Lemma upd_entries_pres_all c dd d nx d' nx' e :
+    Forall (fun kv : key * val => D (snd kv)) dd -> in_backend T b c = true ->
+    KU d -> Forall Qe d ->
+    upd_entries T (fun v => upd T v) c dd d nx = (d', nx', e) -> KU d' /\ Forall Qe d'.
+  Proof.
+    intros HD Hc Hk Hd H.
+    eapply (upd_entries_pres (fun v => upd T v)); [|exact HD|exact Hc|exact Hk|exact Hd|exact H].
+    rewrite Forall_forall in *. intros x Hx. apply upd_pres_all. apply HD; exact Hx.
+  Qed.
+End UpdPres.
